@@ -204,6 +204,8 @@ class SymEngine:
         self.known = []         # known-finding hits (dicts)
         self.samples = []       # a few explored paths, for evidence
         self.sample_limit = 3
+        self.smt_dumps = []      # (smt2 text, expected 'sat'/'unsat') of a few final queries, for the solver cross-check
+        self.smt_dump_limit = 0
         self._reset_path([])
 
     # -- per path state -----------------------------------------------------
@@ -387,6 +389,8 @@ class SymEngine:
         ok = True
         if outside is not False:
             sat, m = (True, self._cur_model()) if outside is True else self._check(_b(outside))
+            if outside is not True and len(self.smt_dumps) < self.smt_dump_limit:
+                self._dump_query(_b(outside), "sat" if sat else "unsat")
             if sat:
                 ok = False
                 self.stats.refuted += 1
@@ -404,6 +408,15 @@ class SymEngine:
         if ok:
             self.stats.proved += 1
         return ok
+
+    def _dump_query(self, extra, expected):
+        try:
+            s = z3.Solver()
+            s.add(*self.pc)
+            s.add(extra)
+            self.smt_dumps.append((s.to_smt2(), expected))
+        except Exception:
+            pass
 
     def fail(self, what, regions=None, detail=None):
         """The current (feasible) path itself is a violation, e.g. an exception escaped."""
